@@ -38,7 +38,6 @@ class _getitem:
         self.slice = slice
 
     def __call__(self, obj):
-        obj = value(obj)
         slice = value(self.slice)
         return obj[slice]
 
